@@ -413,7 +413,8 @@ def reconfigure (m : Model) (g : Graph) (top : Option Str) (key : Option (List K
   let triples := match key with
     | none => g.triples
     | some ks => g.triples.mergeSort fun a b => kvLe (evalKeys m ks a.role) (evalKeys m ks b.role)
-  configure m { g with epidata := epidata, triples := triples } top
+  -- fix F21: `if top is None: top = g.top` (the implicit top is taken BEFORE sorting)
+  configure m { g with epidata := epidata, triples := triples } (match top with | some t => some t | none => g.getTop)
 
 def branchTargetInVars (vars : List Str) : Tgt → Bool
   | .atom (.str s) => s ∈ vars
